@@ -1,6 +1,8 @@
 package ast
 
 import (
+	"bytes"
+	"encoding/json"
 	"fmt"
 	"regexp"
 	"time"
@@ -13,6 +15,16 @@ const NodeTypeOf = "typeOf"
 
 // JSONNode is the intermediate type between Node and JSON serialization
 type JSONNode map[string]interface{}
+
+// UnmarshalJSON decodes numbers as json.Number since a float64 cannot hold every int64 value.
+func (j *JSONNode) UnmarshalJSON(data []byte) error {
+	dec := json.NewDecoder(bytes.NewReader(data))
+	dec.UseNumber()
+	var props map[string]interface{}
+	err := dec.Decode(&props)
+	*j = props
+	return err
+}
 
 // Type adds the Node type information
 func (j JSONNode) Type(typ string) JSONNode {
@@ -103,6 +115,15 @@ func (j JSONNode) Int64(field string) (int64, error) {
 		return 0, err
 	}
 
+	if jn, ok := n.(json.Number); ok {
+		// Integers are read exactly, any other number is truncated as before.
+		if num, err := jn.Int64(); err == nil {
+			return num, nil
+		}
+		if n, err = jn.Float64(); err != nil {
+			return 0, err
+		}
+	}
 	num, ok := n.(int64)
 	if !ok {
 		flt, ok := n.(float64)
@@ -121,6 +142,9 @@ func (j JSONNode) Float64(field string) (float64, error) {
 		return 0, err
 	}
 
+	if jn, ok := n.(json.Number); ok {
+		return jn.Float64()
+	}
 	num, ok := n.(float64)
 	if !ok {
 		integer, ok := n.(int64)
